@@ -17,14 +17,14 @@ rundemo() {
   if [ -f "$sd/run_demo.sh" ]; then
     # the script locates the worktree as ../.. of its own directory
     mkdir -p "$wt/SEEDED" && rm -rf "$wt/SEEDED/k" && cp -r "$sd" "$wt/SEEDED/k"
-    (cd "$wt" && flock /var/tmp/verif-repo-tests.lock timeout 900 bash "$wt/SEEDED/k/run_demo.sh") > "$wt/.demo.log" 2>&1
+    (cd "$wt" && timeout 900 bash "$wt/SEEDED/k/run_demo.sh") > "$wt/.demo.log" 2>&1
     rc=$?
     rm -rf "$wt/SEEDED"
     return $rc
   fi
   if [ -f "$sd/demo.sh" ]; then
     mkdir -p "$wt/SEEDED" && rm -rf "$wt/SEEDED/k" && cp -r "$sd" "$wt/SEEDED/k"
-    (cd "$wt" && flock /var/tmp/verif-repo-tests.lock timeout 900 bash "$wt/SEEDED/k/demo.sh") > "$wt/.demo.log" 2>&1
+    (cd "$wt" && timeout 900 bash "$wt/SEEDED/k/demo.sh" "$wt") > "$wt/.demo.log" 2>&1
     rc=$?
     rm -rf "$wt/SEEDED"
     return $rc
